@@ -295,10 +295,78 @@ def check_model(model, rec):
     return MS.model_failures(model, rec, lambda sig, cmd: sig.endswith("|mask_lost") or sig.endswith("|mask_extra"), "model")
 
 
-PARTS = {"unit": check_unit, "csv": check_csv, "model": check_model}
+def check_netcdf(case, rec):
+    """The same through the NetCDF reader: cells the file itself marks missing (its fill value) stay missing in what is
+    read -- also when the reader is given a MissingValue of its own -- and in the result of the command fed by it."""
+    import tempfile
+    import shutil
+    from mpilot.program import EEMS_NETCDF_LIBRARIES, Program
+
+    from . import c18
+
+    if any(case["markers"][0] == x for c in case["cols"] for x in c["data"]):
+        rec.exclude("marker_collides_with_data")
+        return []
+    rows = len(case["cols"][0]["data"])
+    tmp = tempfile.mkdtemp(prefix="vcheck-c03-")
+    try:
+        variables = []
+        for i, c in enumerate(case["cols"]):
+            variables.append({"name": "V%d" % i, "dtype": "i8" if case["dtype"] == "int64" else "f8", "data": c["data"],
+                              "mask": c["mask"] if c["mask"] is not None and any(c["mask"]) else None,
+                              "fill": -7777 if c["mask"] is not None and any(c["mask"]) else None})
+        path = os.path.join(tmp, "in.nc")
+        c18.make_template(path, [{"name": "x", "size": rows, "values": list(range(rows))}], variables)
+        lines, refs = [], []
+        for i, c in enumerate(case["cols"]):
+            own = ", MissingValue = %r" % case["markers"][0] if (i + case.get("own_missing", 0)) % 2 == 0 else ""
+            lines.append('V%d = EEMSRead(InFileName = "%s", InFieldName = "V%d", DataType = "%s"%s)' % (
+                i, path, i, "Integer" if case["dtype"] == "int64" else "Float", own))
+            if case["fuzzy"]:
+                lines.append("F%d = CvtToFuzzy(InFieldName = V%d, TrueThreshold = 1, FalseThreshold = -1)" % (i, i))
+                refs.append("F%d" % i)
+            else:
+                refs.append("V%d" % i)
+        cmd = case["cmd"]
+        pn = A.INPUT_PARAM[cmd]
+        args = ["%s = [%s]" % (pn[0], ", ".join(refs))] if cmd in R.NARY else ["%s = %s" % (p_, r) for p_, r in zip(pn, refs)]
+        args += ["%s = %s" % (k, _fmt(v)) for k, v in case["params"].items()]
+        lines.append("Out = %s(%s)" % (cmd, ", ".join(args)))
+        sig = "%s|netcdf/%s/n%d" % (cmd, case["dtype"], len(case["cols"]))
+        rec.label("netcdf_cmd:" + cmd)
+        try:
+            prog = Program.from_source("\n".join(lines), libraries=EEMS_NETCDF_LIBRARIES)
+            prog.run()
+        except Exception as exc:
+            rec.exclude("netcdf_program_does_not_run:%s" % A.exc_name(exc))
+            return []
+        fails = []
+        union = numpy.zeros(rows, dtype=bool)
+        for i, c in enumerate(case["cols"]):
+            m = numpy.array(c["mask"] or [0] * rows, dtype=bool)
+            union |= m
+            rm = numpy.ma.getmaskarray(prog.commands["V%d" % i].result)
+            if (m & ~rm).any():
+                fails.append(Failure(sig + "|read|mask_lost", "V%d: row %d is missing in the file but valid (%r) in what was read" % (
+                    i, int(numpy.flatnonzero(m & ~rm)[0]), numpy.ma.getdata(prog.commands["V%d" % i].result)[int(numpy.flatnonzero(m & ~rm)[0])].item())))
+                return fails
+        out = prog.commands["Out"].result
+        if isinstance(out, numpy.ndarray) and out.shape == union.shape:
+            rm = numpy.ma.getmaskarray(out)
+            if (union & ~rm).any():
+                fails.append(Failure(sig + "|mask_lost", "row %d is missing in the file but valid in the result" % int(numpy.flatnonzero(union & ~rm)[0])))
+        if union.any():
+            rec.nontrivial_case(["netcdf", case])
+        return fails
+    finally:
+        shutil.rmtree(tmp, ignore_errors=True)
+
+
+PARTS = {"unit": check_unit, "csv": check_csv, "model": check_model, "netcdf": check_netcdf}
 
 
 def run_shard(ctx, rec):
     drive(ctx, rec, "model", MS.model_cases(), check_model, ctx.n(2000, 40000))
     drive(ctx, rec, "unit", payload_case(), check_unit, ctx.n(6000, 150000))
     drive(ctx, rec, "csv", csv_case(), check_csv, ctx.n(500, 6000))
+    drive(ctx, rec, "netcdf", csv_case(), check_netcdf, ctx.n(400, 5000))
